@@ -143,7 +143,10 @@ def _work(item):
                             got_list = []
                             for (args, kwargs) in calls:
                                 try:
-                                    got_list.append(call_cached(kind, cf, args, dict(kwargs), shelve=(pas == 1)))
+                                    with core.time_limit(60):
+                                        got_list.append(call_cached(kind, cf, args, dict(kwargs), shelve=(pas == 1)))
+                                except core.Watchdog:
+                                    got_list.append(("EXC", "NoTermination", "the cached call did not return within 60 s"))
                                 except Exception as e:  # noqa
                                     got_list.append(("EXC", type(e).__name__, str(e)[:150]))
                         for j, got in enumerate(got_list):
